@@ -4,6 +4,8 @@ import (
 	crand "crypto/rand"
 	"fmt"
 	"reflect"
+	"runtime"
+	"runtime/metrics"
 	"unsafe"
 
 	"github.com/philpearl/avro"
@@ -134,9 +136,16 @@ func genFileSpec(r *Rng, types []string, allowRef bool, maxN int) FileSpec {
 // BuildFile generates the artifact a FileSpec describes. The final Flush is
 // always performed (the file is complete and valid).
 func BuildFile(fs FileSpec) (*BuiltFile, error) {
+	return BuildFileWith(fs, GenValues(typeByName(fs.Type).Type, fs.N, fs.VSeed, fs.VClass))
+}
+
+// BuildFileWith writes the given values instead of generating them (fs.N is
+// ignored in favour of len(values)).
+func BuildFileWith(fs FileSpec, values []reflect.Value) (*BuiltFile, error) {
 	d := typeByName(fs.Type)
+	fs.N = len(values)
 	bf := &BuiltFile{Spec: fs, Desc: d}
-	bf.Values = GenValues(d.Type, fs.N, fs.VSeed, fs.VClass)
+	bf.Values = values
 	switch fs.Writer {
 	case "enc":
 		if d.RefOnly {
@@ -231,6 +240,18 @@ func BuildFile(fs FileSpec) (*BuiltFile, error) {
 	return bf, nil
 }
 
+var heapSample = []metrics.Sample{{Name: "/memory/classes/heap/objects:bytes"}}
+
+// heapHygiene: workers run with the collector off; a property whose plans may
+// legitimately allocate a lot per execution collects between executions
+// (never inside one) once the heap has grown large.
+func heapHygiene() {
+	metrics.Read(heapSample)
+	if heapSample[0].Value.Uint64() > 768<<20 {
+		runtime.GC()
+	}
+}
+
 // ReadOutcome is what one ReadFile call delivered.
 type ReadOutcome struct {
 	Delivered []reflect.Value // deep copies taken at callback time
@@ -243,14 +264,17 @@ type ReadOutcome struct {
 // readAll runs the library's ReadFile over a SimDisk reader, deep-copying
 // every delivered record at callback time and closing its bank. cbErrAt >= 0
 // makes the callback fail at that record index with cbErr.
-func readAll(target reflect.Type, rd *DiskReader, cbErrAt int, cbErr error) (out ReadOutcome) {
+func readAll(target reflect.Type, rd avro.Reader, cbErrAt int, cbErr error) (out ReadOutcome) {
 	defer func() {
 		if p := recover(); p != nil {
 			out.Panic = p
 			out.PanicSite = panicSite()
 		}
-		out.Reads = rd.Reads
+		if d, ok := rd.(*DiskReader); ok {
+			out.Reads = d.Reads
+		}
 	}()
+	heapHygiene()
 	i := 0
 	out.Err = avro.ReadFile(rd, reflect.New(target).Elem().Interface(), func(val unsafe.Pointer, rb *avro.ResourceBank) error {
 		v := reflect.NewAt(target, val).Elem()
